@@ -30,6 +30,13 @@ def run_property(pid, repo, tier, seed, only_key=None):
                     forwarding.rule_forwarding(ctx, 'RF')
                     explanation += (' RF: a frozen table of option-forwarding instances (sa/tables/forwarding.json) is re-decided from the source: every call of the '
                                     'worker inside the listed function still receives the caller\'s option (verbatim, or derived from it where the function normalises it).')
+            if not only_key or '-RS|' in only_key:
+                from . import scenario_rule, scenarios_def
+                if any(pid in props for props, _ in scenarios_def.SCENARIOS.values()):
+                    scenario_rule.rule_scenarios(ctx, 'RS')
+                    explanation += (' RS: scenario tables - the argument handling of the listed functions is interpreted (sa/scenario.py, no library code is run, NumPy calls '
+                                    'and methods of the abstract arrays return symbolic tokens) on a finite set of abstract argument forms and the outcomes are compared with '
+                                    'the frozen table sa/tables/scenarios.json.')
             if tier == 'thorough' and not only_key:
                 from . import thorough
                 thorough.extra(ctx)
